@@ -86,10 +86,13 @@ def Engine.wfClauses (e : Engine) : List (String × Bool) :=
     ("D1.disconnected-clean", e.state != .disconnected ||
         (e.current == none && e.highQ.isEmpty && e.pendingPub.isEmpty && e.pendingNonPub.isEmpty && e.pendingWC.isEmpty && e.timeouts.isEmpty)),
     ("H1.handshake-only-connect", e.state != .pendingConnack ||
-        (e.highQ.all (fun id => match e.ops.lookup id with | some o => isConnectPacket o.packet | none => true) &&
-         (match e.current with | some id => (match e.ops.lookup id with | some o => isConnectPacket o.packet | none => true) | none => true) &&
-         e.pendingWC.all (fun id => match e.ops.lookup id with | some o => isConnectPacket o.packet | none => true) &&
-         e.pendingPub.isEmpty && e.pendingNonPub.isEmpty && e.timeouts.isEmpty)),
+        (e.highQ.all (fun id => match e.ops.lookup id with | some o => isConnectPacket o.packet | none => false) &&
+         (match e.current with | some id => (match e.ops.lookup id with | some o => isConnectPacket o.packet | none => false) | none => true) &&
+         e.pendingWC.all (fun id => match e.ops.lookup id with | some o => isConnectPacket o.packet | none => false) &&
+         e.pendingPub.isEmpty && e.pendingNonPub.isEmpty && e.timeouts.isEmpty && e.connackDeadline.isSome)),
+    ("CUR.current-is-tracked", !(e.state == .connected || e.state == .pendingConnack) ||
+        (match e.current with | some id => (e.ops.lookup id).isSome | none => true)),
+    ("SET.connected-has-settings", e.state != .connected || e.settings.isSome),
     ("C1.current-has-id", e.state != .connected ||
         (match e.current with
          | some id => (match e.ops.lookup id with | some o => !needsPacketId o.packet || o.packetId.isSome | none => true)
